@@ -123,6 +123,25 @@ def gen_source(rnd, idx, supplemental=False, same_layout_as=None):
     return {'settings': src, 'text': text, 'rows': rows, 'lay': lay, 'exp': [r['exp'] for r in rows if r['exp']], 'name': name}
 
 
+def gen_regex_source(rnd, idx):
+    """A text statement read with a regular-expression delimiter (upper-case character classes in it: \\S, [A-Z]); no header line."""
+    from datetime import datetime as _dt
+    name = 'Src%d' % idx
+    pat = rnd.choice([r'^(\S+)\s+(.+?)\s+(-?[\d.]+)$', r'^(\d{2}/\d{2}/\d{4})\s+([A-Z0-9][^\t]*?)\s+(-?\d+\.\d{2})$'])
+    lines, exp = [], []
+    for k in range(rnd.randint(2, 9)):
+        d = _dt(rnd.choice([2024, 2025]), rnd.randint(1, 12), rnd.randint(1, 28))
+        word = rnd.choice(WORDS)
+        desc = 'S%d %s %s' % (idx, word, rnd.choice(['#12', 'WA', '42', 'x']))
+        amt = round(rnd.choice([1, 1, 1, -1]) * rnd.choice([5, 12.5, 99.99, 1234.56, 0.5]), 2)
+        lines.append('%s  %s   %.2f' % (d.strftime('%m/%d/%Y'), desc, amt))
+        exp.append({'date': d, 'desc': desc, 'amount': amt, 'field': None, 'location_cell': None})
+        if rnd.random() < .2:
+            lines.append(rnd.choice(['-- page 2 --', 'TOTAL 12 items', '']))
+    src = {'name': name, 'file': 'data/%s.txt' % name.lower(), 'format': '{date:%m/%d/%Y}, {description}, {amount}', 'delimiter': 'regex:' + pat, 'has_header': False}
+    return {'settings': src, 'text': '\n'.join(lines) + '\n', 'rows': [], 'lay': None, 'exp': exp, 'name': name, 'regex': True}
+
+
 def gen_supplemental(rnd):
     n = rnd.randint(1, 5)
     rows = [{'date': date(2025, rnd.randint(1, 12), rnd.randint(1, 28)), 'item': rnd.choice(['Book', 'Cable', 'USB hub', 'Coffee beans', 'Netflix gift']),
@@ -151,6 +170,9 @@ def gen_budget(rnd, nsources=None, rules='random', views=None, supplemental=None
     b = {'sources': [], 'layout': layout}
     for i in range(nsources):
         twin = b['sources'][0]['lay'] if (i > 0 and rnd.random() < .4) else None
+        if i > 0 and rnd.random() < .15:
+            b['sources'].append(gen_regex_source(rnd, i))
+            continue
         b['sources'].append(gen_source(rnd, i, same_layout_as=twin))
     b['supplemental'] = gen_supplemental(rnd) if (supplemental if supplemental is not None else rnd.random() < .4) else None
     b['rule_mode'] = rnd.choice(['first_match', 'first_match', 'most_specific', None])
